@@ -34,11 +34,13 @@ def build(rec):
             for i in range(nn):
                 g.nodes[d, i] += pert[(d * nn + i) % len(pert)] / 16.0
     var = rec.get("var") or {}
-    if var.get("scale") or var.get("shift") or var.get("axes"):
+    if var.get("scale") or var.get("shift") or var.get("axes") or var.get("matrix"):
         # exact power-of-two scaling, dyadic translation, permutation of the coordinate axes
         # (1-D / 2-D grids embedded in other coordinate lines / planes)
         x = g.nodes * (2.0 ** var.get("scale", 0))
         x = x[var.get("axes", [0, 1, 2])]
+        if var.get("matrix"):
+            x = np.array(var["matrix"], dtype=float) @ x       # rotation / shear of the embedding
         x = x + np.array(var.get("shift", [0.0, 0.0, 0.0])).reshape(3, 1)
         g.nodes = x
     if var.get("renum"):
@@ -295,7 +297,7 @@ class C22(Prop):
             "structured triangle and tetrahedral grids in 1-3-D, half of them with dyadic node "
             "perturbations; pstruct 22% (random fine/coarse dims incl. coarse>fine error inputs and "
             "the num_part path); overlap 20% (depths 0-3, both criteria, empty/single/out-of-range "
-            "sets); pcoord/partition/pgrid/connected/faces=True 20% (oracle only). non-trivial = non-empty "
+            "sets); pcoord/partition/pgrid/connected/faces=True 20% (oracle only; a third of them partition_coordinates on 1-D grids in every orientation - horizontal, vertical, along z, oblique in the plane and in space - and 2-D grids in coordinate and tilted planes). non-trivial = non-empty "
             "proper subset / more than one part / at least one layer; distinct by (case, output)")
     trusted = ["scipy csc storage order is the meaning of cell_faces/face_nodes columns",
                "g.cell_nodes() (sparse product) supplies the node pattern of overlap",
@@ -425,9 +427,51 @@ class C22(Prop):
                     k = rng.randint(1, len(cand))
                     return {"kind": "xfaces", "grid": rec, "faces": sorted(rng.sample(cand, k))}
 
+    def _gen_oriented(self, rng, tier):
+        """1-D grids in every orientation (axis-aligned horizontal/vertical in the xy-plane, along z,
+        oblique in the plane and in space) and 2-D grids in coordinate and tilted planes."""
+        c, s_ = 0.8, 0.6                                   # a rational rotation (3-4-5)
+        mats = {
+            "x": [[1, 0, 0], [0, 1, 0], [0, 0, 1]],
+            "y": [[0, 1, 0], [1, 0, 0], [0, 0, 1]],          # 1-D: vertical line in the xy-plane
+            "z": [[0, 0, 1], [0, 1, 0], [1, 0, 0]],          # 1-D: along z; 2-D: the zy-plane
+            "xz": [[1, 0, 0], [0, 0, 1], [0, 1, 0]],         # 2-D: the xz-plane
+            "oblique_xy": [[c, -s_, 0], [s_, c, 0], [0, 0, 1]],
+            "tilt_x": [[1, 0, 0], [0, c, -s_], [0, s_, c]],  # tilted about the x-axis
+            "oblique_3d": [[c, -s_ * c, s_ * s_], [s_, c * c, -c * s_], [0, s_, c]],
+        }
+        while True:
+            if rng.random() < 0.6:
+                n = rng.randint(1, 7)
+                if rng.random() < 0.5:
+                    rec = {"kind": "cart", "dims": [n]}
+                else:
+                    xs = [0.0]
+                    for _ in range(n):
+                        xs.append(xs[-1] + rng.choice([0.25, 0.5, 1.0, 2.0]))
+                    rec = {"kind": "tensor", "coords": [xs]}
+            else:
+                rec = _gen_grid(rng, tier)
+            dim = len(rec["dims"]) if "dims" in rec else len(rec["coords"])
+            if dim == 3:
+                continue
+            name = rng.choice(sorted(mats))
+            var = {"matrix": mats[name]}
+            if rng.random() < 0.4:
+                var["shift"] = [rng.choice([-3.5, 0.0, 0.25, 7.0]) for _ in range(3)]
+            out = dict(rec, var=var)
+            try:
+                g = build(out)
+            except (ValueError, AssertionError, RuntimeError):
+                continue
+            return {"kind": "pcoord", "grid": out, "num": rng.randint(1, g.num_cells + 2),
+                    "check": rng.random() < 0.5, "orientation": name}
+
     def _gen_other(self, rng, tier):
         if rng.random() < 0.25:
             return self._gen_faces(rng, tier)
+        if rng.random() < 0.4:
+            return self._gen_oriented(rng, tier)
         r = rng.random()
         if r < 0.35:
             rec = gen_grid(rng, tier)
@@ -540,7 +584,7 @@ class C22(Prop):
 
             def spy(target, fine_size):
                 out = orig(target, fine_size)
-                seen.append(([int(x) for x in fine_size], [int(x) for x in out]))
+                seen.append(([float(x) for x in fine_size], [float(x) for x in out]))
                 return out
 
             part.determine_coarse_dimensions = spy
@@ -551,10 +595,12 @@ class C22(Prop):
                     p = part.partition(g, case["num"])
             except ValueError as e:
                 if "unconnected" not in str(e):
-                    raise
+                    return {"err": "Other", "what": f"ValueError: {e}"[:120]}
                 part.determine_coarse_dimensions = orig
                 p = part.partition_coordinates(g, case["num"], check_connectivity=False)
                 return {"err": "ValueErr", "unchecked": [float(x) for x in p]}
+            except Exception as e:      # raising on a valid grid is a violation, not a broken tie
+                return {"err": "Other", "what": f"{type(e).__name__}: {e}"[:120]}
             finally:
                 part.determine_coarse_dimensions = orig
             return {"ids": [float(x) for x in p], "coarse": seen[-1] if seen else None}
@@ -725,6 +771,8 @@ class C22(Prop):
             return None
         if k in ("pcoord", "partition"):
             g = build(case["grid"])
+            if res.get("err") == "Other":
+                return f"valid grid, num_coarse={case['num']}: raised {res['what']}"
             if "err" in res:
                 # documented: ValueError when a part is not connected; confirm by brute force
                 ids = res["unchecked"]
@@ -742,7 +790,7 @@ class C22(Prop):
             hi = None
             if res["coarse"] is not None:
                 fine, coarse = res["coarse"]
-                if not all(1 <= c <= f for c, f in zip(coarse, fine)):
+                if not all(c == int(c) and 1 <= c <= f for c, f in zip(coarse, fine)):
                     return f"determine_coarse_dimensions gave {coarse} for fine {fine}"
                 hi = int(np.prod(coarse))
             elif g.dim == 0:
